@@ -32,7 +32,10 @@ reference oracle `refSpanOracle` reads the flag from that field: the wrapper pas
 Results (`Source`: the pattern string parsed by the translated parser, handed to the translated `new_options`, which
 returned `rx`; `b` is what `build` returns): `C08_source_to_reference_s5` / `_wrap` (translated `find_iter`),
 `C09_source_to_reference` (translated `captures_iter` spans = translated `find_iter` items), `C10_source_to_reference_s5`
-/ `_wrap` (translated `split`), `C11_source_to_model`, `C11_source_to_reference_s5` (translated `try_replacen`, both paths).
+/ `_wrap` (translated `split`), `C11_source_to_model`, `C11_source_to_reference_s5` (translated `try_replacen`, both paths); `C10_source_split_pieces`,
+`C10_source_splitn_pieces` (errors included), `C10_source_splitn_s5` / `_wrap` (with the model-level collected theorems
+`C10_splitn_pieces`, `C10_splitn_spec`), `C02_source_to_reference_s5` / `_wrap` (every group of every item),
+`C16_source_captures_len`.
 -/
 set_option linter.unusedSimpArgs false
 namespace Fancy
@@ -464,5 +467,314 @@ example (limit : Nat) (sem : RaSem) (chars : List Char) (hlen : chars.length < U
     have h4 := s4ok_of_s3ok _ _ hst.1
     simp only [s5Pattern, s4Pattern, h4, hst.2, Bool.and_self, Bool.true_or]
   exact ⟨b, _, src.hrx, C08_source_to_reference_s5 src prog hk hst5 chars hlen fuel text htext⟩
+
+/-! ## `splitn`, collected (model level, every well-formed oracle) -/
+
+namespace Api
+open Fancy.Utf8
+
+/-- the pieces `splitn (k + 1)` yields for a drained `find_iter` sequence, starting from `ns`: as `toPieces` for `k`
+    items, then the untouched remainder -/
+def toPiecesN (len : Nat) : Nat → List (Except SearchErr (Nat × Nat)) → Nat → List Item
+  | 0, _, ns => if ns > len then [] else [.piece ns len]
+  | _ + 1, [], ns => if ns > len then [] else [.piece ns len]
+  | k + 1, .ok (s, e) :: rest, ns => .piece ns s :: toPiecesN len k rest e
+  | k + 1, .error e :: rest, ns => .err e :: toPiecesN len k rest ns
+
+theorem splitN_done_collect (f : Oracle (Nat × Nat)) (text : Bytes) (n : Nat) (sp : Split) :
+    SplitN.collect f text n ⟨sp, 0⟩ = [] := by
+  cases n with
+  | zero => rfl
+  | succ n => simp [SplitN.collect, C10_splitn_done]
+
+theorem splitN_after_end (f : Oracle (Nat × Nat)) (text : Bytes) (it' : Iter)
+    (hf : ∀ fuel', (Iter.next f id text (fuel' + 1) it').1 = none) (n k : Nat) :
+    SplitN.collect f text n ⟨⟨it', text.length + 1⟩, k⟩ = [] := by
+  cases n with
+  | zero => rfl
+  | succ n =>
+    unfold SplitN.collect
+    match k with
+    | 0 => simp [C10_splitn_done]
+    | 1 => rw [C10_splitn_last]; simp
+    | k + 2 =>
+      rw [C10_splitn_step, C10_step]
+      have := hf (text.length + 1)
+      generalize Iter.next f id text (text.length + 2) it' = r at this
+      obtain ⟨i, it2, o⟩ := r
+      simp only at this; subst this
+      simp
+
+theorem splitN_tail (f : Oracle (Nat × Nat)) (text : Bytes) (it' it2 : Iter) (ns : Nat)
+    (hn2 : Iter.next f id text (text.length + 2) it' = (none, it2, false)) (hns : ns ≤ text.length) (n k : Nat) :
+    SplitN.collect f text (n + 1) ⟨⟨it', ns⟩, k + 1⟩ = [.piece ns text.length] := by
+  unfold SplitN.collect
+  cases k with
+  | zero =>
+    rw [C10_splitn_last]
+    simp [Nat.not_lt.mpr hns, splitN_done_collect]
+  | succ k =>
+    rw [C10_splitn_step, C10_step, hn2]
+    simp only [Nat.not_lt.mpr hns, ↓reduceIte]
+    rw [splitN_after_end f text it2 (fun fuel' => C08_fused f id text _ fuel' it' it2 hn2) n (k + 1)]
+
+theorem splitN_collect_eq (f : Oracle (Nat × Nat)) (text : Bytes) (hwf : WFOracle f id text.length)
+    (n : Nat) (it : Iter) (hj : it.J) (ns : Nat) (hns : ns ≤ text.length)
+    (hshort : (Iter.collect f id text n it).length < n) (k : Nat) :
+    SplitN.collect f text (n + 1) ⟨⟨it, ns⟩, k + 1⟩ = toPiecesN text.length k (Iter.collect f id text n it) ns := by
+  induction n generalizing it ns k with
+  | zero => simp at hshort
+  | succ n ih =>
+    cases k with
+    | zero =>
+      unfold SplitN.collect
+      rw [C10_splitn_last]
+      simp [Nat.not_lt.mpr hns, toPiecesN, splitN_done_collect]
+    | succ k =>
+      unfold SplitN.collect
+      rw [C10_splitn_step, C10_step]
+      unfold Iter.collect at hshort ⊢
+      have hoof := C08_terminates f id text hwf it
+      generalize hn : Iter.next f id text (text.length + 2) it = r at hshort hoof ⊢
+      obtain ⟨item, it', oof⟩ := r
+      simp only at hoof; subst hoof
+      cases item with
+      | none =>
+        simp only [Nat.not_lt.mpr hns, ↓reduceIte, toPiecesN]
+        rw [splitN_after_end f text it' (fun fuel' => C08_fused f id text _ fuel' it it' hn) (n + 1) (k + 1)]
+      | some item =>
+        cases item with
+        | ok p =>
+          obtain ⟨s, e⟩ := p
+          obtain ⟨_, _, r3, _, _, _, _, r8⟩ := next_ok_spec f id text hwf _ it it' (s, e) false hj hn
+          simp only [toPiecesN]
+          congr 1
+          exact ih it' r8 e r3 (by simpa using hshort) k
+        | error e =>
+          simp only [toPiecesN]
+          congr 1
+          have hl := next_err_spec f id text _ it it' e false hn
+          cases n with
+          | zero => simp at hshort
+          | succ n =>
+            have hnone : (Iter.next f id text (text.length + 2) it').1 = none :=
+              next_exhausted f id text _ it' (by omega)
+            have hoof2 := C08_terminates f id text hwf it'
+            unfold Iter.collect
+            generalize hn2 : Iter.next f id text (text.length + 2) it' = r2 at hnone hoof2
+            obtain ⟨i2, it2, o2⟩ := r2
+            simp only at hnone hoof2; subst hnone; subst hoof2
+            simp only
+            rw [splitN_tail f text it' it2 ns hn2 hns (n + 1) k]
+            cases k <;> simp [toPiecesN, Nat.not_lt.mpr hns]
+
+/-- **`splitn (k + 1)` in terms of `find_iter`** (errors included): `k` items as `split`, then the untouched remainder -/
+theorem C10_splitn_pieces (f : Oracle (Nat × Nat)) (text : Bytes) (hwf : WFOracle f id text.length) (k : Nat) :
+    splitn f text (k + 1) = toPiecesN text.length k (findIter f text) 0 := by
+  unfold splitn findIter
+  exact splitN_collect_eq f text hwf (text.length + 3) Iter.start Iter.J_start 0 (Nat.zero_le _)
+    (by have := C08_length_bound f text hwf; unfold findIter at this; omega) k
+
+theorem toPiecesN_ok (len : Nat) (ms : List (Nat × Nat)) (ns k : Nat) (hns : ns ≤ len) (hms : ∀ m ∈ ms, m.2 ≤ len) :
+    toPiecesN len k (ms.map .ok) ns =
+      (if (ApiSpec.piecesFrom len ms ns).length ≤ k then ApiSpec.piecesFrom len ms ns
+        else (ApiSpec.piecesFrom len ms ns).take k ++ [(((ApiSpec.piecesFrom len ms ns).getD k (0, 0)).1, len)]).map
+        fun p => Item.piece p.1 p.2 := by
+  induction ms generalizing ns k with
+  | nil => cases k <;> simp [toPiecesN, ApiSpec.piecesFrom, Nat.not_lt.mpr hns]
+  | cons m ms ih =>
+    obtain ⟨s, e⟩ := m
+    cases k with
+    | zero => simp [toPiecesN, ApiSpec.piecesFrom, Nat.not_lt.mpr hns]
+    | succ k =>
+      simp only [List.map_cons, toPiecesN, ApiSpec.piecesFrom]
+      rw [ih e k (hms (s, e) (by simp)) (fun m hm => hms m (by simp [hm]))]
+      by_cases hle : (ApiSpec.piecesFrom len ms e).length ≤ k
+      · simp [hle]
+      · simp [hle]
+
+/-- **the statement of `splitn`, for an error-free run**: if `find_iter` yields the matches `ms`, `splitn n` yields
+    the property's `piecesN`: nothing for `n = 0`, the first `n - 1` pieces of `split` and then the untouched remainder -/
+theorem C10_splitn_spec (f : Oracle (Nat × Nat)) (text : Bytes) (hwf : WFOracle f id text.length)
+    (ms : List (Nat × Nat)) (hms : findIter f text = ms.map .ok) (n : Nat) :
+    splitn f text n = (ApiSpec.piecesN text.length ms n).map (fun p => Item.piece p.1 p.2) := by
+  cases n with
+  | zero => simp [C10_splitn_zero, ApiSpec.piecesN]
+  | succ k =>
+    have hord := C08_find_iter_ordered f text hwf
+    have hends : ∀ m ∈ ms, m.2 ≤ text.length := by
+      rw [hms] at hord
+      clear hms
+      generalize (0 : Nat) = lo at hord
+      generalize (none : Option Nat) = lm at hord
+      induction ms generalizing lo lm with
+      | nil => intro m hm; simp at hm
+      | cons x xs ih =>
+        intro m hm
+        simp only [List.map_cons, Ordered, id] at hord
+        rcases List.mem_cons.mp hm with rfl | hm
+        · exact hord.2.2.1
+        · exact ih _ _ hord.2.2.2.2 m hm
+    rw [C10_splitn_pieces f text hwf, hms, toPiecesN_ok _ _ _ _ (Nat.zero_le _) hends]
+    rfl
+
+example : toPiecesN 3 1 (findIter demoOracle [97, 97, 98]) 0 = splitn demoOracle [97, 97, 98] 2 := by rfl
+example : splitn demoOracle [97, 97, 98] 2 = [.piece 0 0, .piece 2 3] := by rfl
+
+end Api
+
+/-! ## C10 completed: `split` with errors, `splitn` -/
+
+/-- **the translated `split`, errors or not**: the pieces induced by the items of the translated `find_iter` -/
+theorem C10_source_split_pieces (sem : RaSem) (fuel : Nat) (rx : RRegex) (b : Built) (h : Corr sem rx b)
+    (chars : List Char) (hE : EngineOK b chars) (hns : noSelfNest b.raw = true) (hg : 1 ≤ b.nGroups) (text : Bytes)
+    (htext : text.length = byteLen chars) :
+    drain (genSplitNext (genFindOracle sem fuel rx chars) text) (text.length + 4) genSplit =
+      toPieces text.length
+        (iterItems (genMatchesNext (genFindOracle sem fuel rx chars) text) text (text.length + 3) genFindIter) 0 := by
+  rw [C10_split_translated_eq, C08_find_iter_translated_eq, genFindOracle_eq sem fuel rx b h chars hE hns hg]
+  exact C10_split_pieces_engine b chars _ fuel hE hns hg text htext
+
+/-- **the translated `splitn`, errors or not**: nothing for `n = 0`; for `n = k + 1`, `k` items as `split`, then the
+    untouched remainder -/
+theorem C10_source_splitn_pieces (sem : RaSem) (fuel : Nat) (rx : RRegex) (b : Built) (h : Corr sem rx b)
+    (chars : List Char) (hE : EngineOK b chars) (hns : noSelfNest b.raw = true) (hg : 1 ≤ b.nGroups) (text : Bytes)
+    (htext : text.length = byteLen chars) :
+    drain (genSplitNNext (genFindOracle sem fuel rx chars) text) (text.length + 4) (genSplitn 0) = [] ∧
+    ∀ k, drain (genSplitNNext (genFindOracle sem fuel rx chars) text) (text.length + 4) (genSplitn (k + 1)) =
+      toPiecesN text.length k
+        (iterItems (genMatchesNext (genFindOracle sem fuel rx chars) text) text (text.length + 3) genFindIter) 0 := by
+  have hwf := C08_engine_wf b chars (optionsOf rx).backtrackLimit fuel hE hns hg
+  rw [← htext] at hwf
+  refine ⟨by rw [C10_splitn_translated_eq]; exact C10_splitn_zero _ _, fun k => ?_⟩
+  rw [C10_splitn_translated_eq, C08_find_iter_translated_eq, genFindOracle_eq sem fuel rx b h chars hE hns hg]
+  exact C10_splitn_pieces _ text hwf k
+
+/-- **C10 `splitn`, stage S5**: when the translated `find_iter` yields no `Err` item, the translated `splitn n` yields the
+    property's pieces of the REFERENCE iteration: nothing for `n = 0`, otherwise the first `n - 1` pieces of the reference
+    split and then the untouched remainder of the text -/
+theorem C10_source_splitn_s5 {isAlnum : Char → Bool} {parse : List Char → Bool → LRes Parse.Tree} {options : ROptions}
+    {sem : RaSem} {t : Parse.Tree} {b : Built} {rx : RRegex} (s : Source isAlnum parse options sem t b rx)
+    (prog : Prog) (hk : b.kind = .fancy prog) (hst : s5Pattern t b = true)
+    (chars : List Char) (hlen : chars.length < UNSET) (fuel : Nat) (text : Bytes) (htext : text.length = byteLen chars)
+    (hnoerr : ∀ e, .error e ∉
+      iterItems (genMatchesNext (genFindOracle sem fuel rx chars) text) text (text.length + 3) genFindIter) (n : Nat) :
+    drain (genSplitNNext (genFindOracle sem fuel rx chars) text) (text.length + 4) (genSplitn n) =
+      (ApiSpec.piecesN text.length (ApiSpec.iter (refSpanOracle b chars) text) n).map (fun p => Item.piece p.1 p.2) := by
+  have hE := engineOK_s5 isAlnum _ _ t b prog s.parseStr s.hb hk hst chars hlen
+  have hns := build_noSelfNest _ _ b s.hb
+  have hg := build_nGroups_pos _ _ b s.hb
+  have hwf := C08_engine_wf b chars (optionsOf rx).backtrackLimit fuel hE hns hg
+  rw [← htext] at hwf
+  rw [C08_find_iter_translated_eq, genFindOracle_eq sem fuel rx b s.corr.1 chars hE hns hg] at hnoerr
+  rw [C10_splitn_translated_eq, genFindOracle_eq sem fuel rx b s.corr.1 chars hE hns hg]
+  rcases C08_find_iter_is_reference b chars _ fuel hE hns hg text htext with hfi | ⟨ms, e, hfi, _⟩
+  · exact C10_splitn_spec _ text hwf _ hfi n
+  · exact absurd (by rw [hfi]; simp) (hnoerr e)
+
+/-- **C10 `splitn`, the wrapped path**: unconditionally -/
+theorem C10_source_splitn_wrap {isAlnum : Char → Bool} {parse : List Char → Bool → LRes Parse.Tree} {options : ROptions}
+    {sem : RaSem} {t : Parse.Tree} {b : Built} {rx : RRegex} (s : Source isAlnum parse options sem t b rx)
+    (hk : b.kind = .wrap) (chars : List Char) (fuel : Nat) (text : Bytes) (htext : text.length = byteLen chars) (n : Nat) :
+    drain (genSplitNNext (genFindOracle sem fuel rx chars) text) (text.length + 4) (genSplitn n) =
+      (ApiSpec.piecesN text.length (ApiSpec.iter (refSpanOracle b chars) text) n).map (fun p => Item.piece p.1 p.2) := by
+  have hE := engineOK_wrap b chars hk
+  have hns := build_noSelfNest _ _ b s.hb
+  have hg := build_nGroups_pos _ _ b s.hb
+  have hwf := C08_engine_wf b chars (optionsOf rx).backtrackLimit fuel hE hns hg
+  rw [← htext] at hwf
+  rw [C10_splitn_translated_eq, genFindOracle_eq sem fuel rx b s.corr.1 chars hE hns hg]
+  exact C10_splitn_spec _ text hwf _ (C08_find_iter_is_reference_wrap _ _ b s.hb hk chars _ fuel text htext) n
+
+/-! ## C02: every capture group of every item; C16: `captures_len` -/
+
+/-- **C02, from the source text to the reference search, stage S5**: the translated `captures_iter` over the translated
+    `captures` entry point yields values `as` each of which is — group for group, all `2 * n_groups` slots, in byte
+    offsets — the reference search's answer at some search position; their overall spans are the reference iteration
+    (or a prefix of it, followed by one resource stop) -/
+theorem C02_source_to_reference_s5 {isAlnum : Char → Bool} {parse : List Char → Bool → LRes Parse.Tree} {options : ROptions}
+    {sem : RaSem} {t : Parse.Tree} {b : Built} {rx : RRegex} (s : Source isAlnum parse options sem t b rx)
+    (prog : Prog) (hk : b.kind = .fancy prog) (hst : s5Pattern t b = true)
+    (chars : List Char) (hlen : chars.length < UNSET) (fuel : Nat) (text : Bytes) (htext : text.length = byteLen chars) :
+    ∃ as : List (List (Option Nat)),
+      (∀ a ∈ as, ∃ p fl, refCapsOracle b chars p fl = some a) ∧
+      ((iterItems (genCaptureMatchesNext (genCapsOracle sem fuel rx chars) spanOfSlots text) text (text.length + 3)
+            genCapturesIter = as.map .ok ∧
+          as.map spanOfSlots = ApiSpec.iter (refSpanOracle b chars) text) ∨
+       (∃ e, iterItems (genCaptureMatchesNext (genCapsOracle sem fuel rx chars) spanOfSlots text) text (text.length + 3)
+            genCapturesIter = as.map .ok ++ [.error e] ∧
+          as.map spanOfSlots <+: ApiSpec.iter (refSpanOracle b chars) text ∧
+          (e = .limit ∨ e = .stack ∨ e = .outOfFuel))) := by
+  have hE := engineOK_s5 isAlnum _ _ t b prog s.parseStr s.hb hk hst chars hlen
+  rw [C09_captures_iter_translated_eq, genCapsOracle_eq sem fuel rx b s.corr.1 chars]
+  exact C09_captures_iter_is_reference b chars _ fuel hE (build_noSelfNest _ _ b s.hb) (build_nGroups_pos _ _ b s.hb)
+    text htext
+
+/-- the same on the wrapped path: all items, no error -/
+theorem C02_source_to_reference_wrap {isAlnum : Char → Bool} {parse : List Char → Bool → LRes Parse.Tree}
+    {options : ROptions} {sem : RaSem} {t : Parse.Tree} {b : Built} {rx : RRegex}
+    (s : Source isAlnum parse options sem t b rx) (hk : b.kind = .wrap)
+    (chars : List Char) (fuel : Nat) (text : Bytes) (htext : text.length = byteLen chars) :
+    ∃ as : List (List (Option Nat)),
+      (∀ a ∈ as, ∃ p fl, refCapsOracle b chars p fl = some a) ∧
+      iterItems (genCaptureMatchesNext (genCapsOracle sem fuel rx chars) spanOfSlots text) text (text.length + 3)
+            genCapturesIter = as.map .ok ∧
+      as.map spanOfSlots = ApiSpec.iter (refSpanOracle b chars) text := by
+  have hE := engineOK_wrap b chars hk
+  have hns := build_noSelfNest _ _ b s.hb
+  have hg := build_nGroups_pos _ _ b s.hb
+  rw [C09_captures_iter_translated_eq, genCapsOracle_eq sem fuel rx b s.corr.1 chars]
+  obtain ⟨as, h1, h2 | ⟨e, h2, _, _⟩⟩ := C09_captures_iter_is_reference b chars (optionsOf rx).backtrackLimit fuel hE hns hg
+    text htext
+  · exact ⟨as, h1, h2.1, h2.2⟩
+  · exfalso
+    have h3 := C09_iters_equal (modelOracleF b chars (offsets chars) (optionsOf rx).backtrackLimit fuel) spanOfSlots text
+    rw [← spanOracle_eq_spans, C08_find_iter_is_reference_wrap _ _ b s.hb hk chars _ fuel text htext, h2] at h3
+    have : (Except.error e : Except SearchErr (Nat × Nat)) ∈
+        List.map (Except.ok) (ApiSpec.iter (refSpanOracle b chars) text) := by
+      rw [h3]; simp [mapItem]
+    simp at this
+
+/-- **C16, from the source**: the translated `captures_len` of the built regex is `1 + ` the number of groups of the
+    parsed pattern, and every `Captures` value the translated `captures` entry point returns (in a context of the
+    oracle: a character index inside the text) has exactly that `len()` -/
+theorem C16_source_captures_len {isAlnum : Char → Bool} {parse : List Char → Bool → LRes Parse.Tree} {options : ROptions}
+    {sem : RaSem} {t : Parse.Tree} {b : Built} {rx : RRegex} (s : Source isAlnum parse options sem t b rx)
+    (chars : List Char) (hE : EngineOK b chars) (fuel : Nat) :
+    genCapturesLen sem rx = 1 + groupCount t.expr ∧
+    ∀ cpos flag cp, cpos ≤ chars.length →
+      genCapturesFromPosWithOptionFlags sem fuel rx (mkCtx chars 0 flag) cpos (flagsOf flag) = .ok (some cp) →
+      genCapturesLenOf cp = genCapturesLen sem rx := by
+  have hcorr := s.corr.1
+  have hlenb := C16_len _ _ b s.hb
+  have h1 : genCapturesLen sem rx = b.nGroups := C16_captures_len_translated_eq sem rx b hcorr
+  refine ⟨by rw [h1, hlenb], fun cpos flag cp hc hcp => ?_⟩
+  rw [h1, C16_captures_len_of_translated_eq]
+  rw [C09_captures_translated_eq sem fuel rx b hcorr, ctxOf_mkCtx] at hcp
+  have hv := hE cpos flag hc (optionsOf rx).backtrackLimit fuel
+  cases hcap : (b.captures (mkCtx chars cpos flag) (optionsOf rx).backtrackLimit fuel).1 with
+  | found slots =>
+    rw [hcap] at hcp hv
+    simp only [expectCaptures, LRes.ok.injEq, Option.some.injEq] at hcp
+    subst hcp
+    have hsl : slots.length = 2 * b.nGroups := by
+      rcases hv with hv | hv | hv | hv
+      · cases hv
+      · cases hv
+      · cases hv
+      · cases href : refSearch (mkCtx chars cpos flag) b.raw b.nGroups with
+        | none => rw [href] at hv; cases hv
+        | some f =>
+          rw [href] at hv
+          simp only [SearchResult.found.injEq] at hv
+          rw [hv]
+          exact (refSearch_valid _ _ _ (build_noSelfNest _ _ b s.hb) f href).len
+    unfold toCaps capsOf Caps.len
+    cases b.kind <;> simp [viewSlots_length, hsl]
+  | noMatch => rw [hcap] at hcp; simp [expectCaptures] at hcp
+  | errLimit => rw [hcap] at hcp; simp [expectCaptures] at hcp
+  | errStack => rw [hcap] at hcp; simp [expectCaptures] at hcp
+  | panic site => rw [hcap] at hcp; simp [expectCaptures] at hcp
+  | outOfFuel => rw [hcap] at hcp; simp [expectCaptures] at hcp
 
 end Fancy
